@@ -37,6 +37,8 @@ import NgoVerif.Proofs.C08anonObj
   body aggregate otherwise).
 * `(sem_anon_obj <objective before> <objective after> <rule with body [p literal]> <rule with body [q literal]> ("v" …))` →
   `(ok <objCheck> <same literals>)`: the hypothesis of `C08_weaker_copy_in_objective_costs`.
+* `(sem_implied_obj <pre> <objective before> <objective after> <post> <rule with body [p literal]> <rule with body [q literal]>)` →
+  `(ok <objImpliedCheck> <same literals>)`: the hypothesis of `C08_remove_implied_in_objective`.
 * `(sem_okstm <stm>)` → `(ok <okBody>)`: the hypothesis of the `_partial` theorems about `expand_comparisons`.
 * `(sem_unused_cond <prog> "n" k)` → `(ok <every statement stmOk> <Unused n k prog>)`: the hypothesis of
   `C09_removal_sound/complete` for the program `unused` removed the rules of `n/k` from.
@@ -201,6 +203,16 @@ def handleSem : Sexp → Option Sexp
           | _, _ => .list [.atom "unsupported", .str "element index"]
         | _, _ => .list [.atom "unsupported", .str "body literal at the index"]
       | _, _, _, _, _, _, _ => .list [.atom "unsupported", .str "rules / literals"]
+  | .list [.atom "sem_implied_obj", pre, o, u, post, pr, qr] =>
+    some <| match Prog.ofSexp pre, Stm.ofSexp o, Stm.ofSexp u, Prog.ofSexp post, Stm.ofSexp pr, Stm.ofSexp qr with
+      | some pre, some (.minimize l c w p ts bb), some (.minimize _ _ w' p' ts' ab), some post,
+        some (.rule _ _ _ [.lit (.pos, .sym (.fn pn pargs false))]), some (.rule _ _ _ [.lit (.pos, .sym (.fn qn qargs false))]) =>
+        let R : Proofs.C08impl.ObjRewrite :=
+          { pre := pre, post := post, line := l, col := c, weight := w', prio := p', terms := ts', body := ab, pn := pn, pargs := pargs,
+            qn := qn, qargs := qargs }
+        .list [.atom "ok", ofBool (Proofs.C08impl.objImpliedCheck R),
+               ofBool (termEqb w w' && termEqb p p' && termsEqb ts ts' && Proofs.C08impl.sameLits bb (R.qLit :: ab))]
+      | _, _, _, _, _, _ => .list [.atom "unsupported", .str "objectives / literals"]
   | .list [.atom "sem_anon_obj", o, u, pr, qr, .list fs] =>
     some <| match Stm.ofSexp o, Stm.ofSexp u, Stm.ofSexp pr, Stm.ofSexp qr,
         fs.mapM (fun x => match x with | .str v => some v | _ => none) with
